@@ -88,6 +88,8 @@ func runC09(w *World, r *Report) {
 
 	// 2. edges: declared parent → new vertex
 	r.rule("edge-binding", "AddEdge(src, dst): dst is the vertex inserted by the dominating AddVertexByID; src is fetched by / equal to a declared parent hash of that vertex", 6)
+	loadDagSrcs := map[string]bool{}
+	loadDagDst := ""
 	for _, fnName := range []string{"addLeafMemorized", "CreateLeaf", "LoadDag"} {
 		f := w.fx(r, "accountant", "AccountingBook", fnName)
 		if f == nil {
@@ -163,8 +165,16 @@ func runC09(w *World, r *Report) {
 				if dx != nil {
 					dp = pathOf(dx)
 				}
-				want := []string{dp + ".LeftParentHash", dp + ".RightParentHash"}
-				r.check(strings.Join(ps, ",") == strings.Join(want, ","), "edge-binding", fnName+"/AddEdge-src", lineOf(w, e), "edge starts at a declared parent hash of the destination vertex", "src originates from "+strings.Join(ps, ","))
+				// each edge starts at a declared parent of its destination; all edge sites together cover both parents
+				subset := len(ps) > 0
+				for _, p := range ps {
+					if p != dp+".LeftParentHash" && p != dp+".RightParentHash" {
+						subset = false
+					}
+					loadDagSrcs[p] = true
+				}
+				loadDagDst = dp
+				r.check(subset, "edge-binding", fnName+"/AddEdge-src", lineOf(w, e), "edge starts at a declared parent hash of the destination vertex", "src originates from "+strings.Join(ps, ","))
 			case "CreateLeaf":
 				sx, ok := vertexOfHashArg(a[0])
 				srcOK := false
@@ -201,6 +211,8 @@ func runC09(w *World, r *Report) {
 			}
 		}
 	}
+
+	r.check(loadDagSrcs[loadDagDst+".LeftParentHash"] && loadDagSrcs[loadDagDst+".RightParentHash"], "edge-binding", "LoadDag/both-parents-linked", "-", "the edges added for a loaded vertex start at its left and at its right declared parent", fmt.Sprintf("sources %v", loadDagSrcs))
 
 	// 3. roll back the new vertex when linking fails
 	r.rule("rollback-vertex", "after a successful AddVertexByID every path to an error return passes DeleteVertex(new vertex)", 2)
@@ -239,10 +251,10 @@ func runC09(w *World, r *Report) {
 	// 3b. only tips are ever deleted outside truncation
 	r.rule("delete-only-tips", "DeleteVertex outside truncate removes only a vertex that cannot have children: the one just inserted, one taken from GetLeaves(), or one behind IsLeaf(same id) == true", 4)
 	for _, fn := range w.RepoFuncs("accountant") {
-		if fn.Name() == "truncate" {
-			continue
-		}
 		for _, d := range callsTo(fn, nDeleteVertex) {
+			if truncateOwns(w, d) {
+				continue
+			}
 			_, da := callArgs(d)
 			x, ok := vertexOfHashArg(da[0])
 			key := shortFn(fn) + "/DeleteVertex"
@@ -297,6 +309,10 @@ func runC09(w *World, r *Report) {
 			r.check(good, "delete-only-tips", key+"("+v+")", lineOf(w, d), "only childless vertices are removed from the live DAG", why)
 		}
 	}
+
+	// 3c. truncation deletes what it checkpointed, nothing else
+	r.rule("pruned-are-checkpointed", "truncate deletes exactly the ids gathered by a walk from the cut the save walk started at: a vertex leaves the live DAG only together with its checkpoint record", 2)
+	prunedAreCheckpointed(w, r, "pruned-are-checkpointed")
 
 	// 4. both parents exist before admission
 	r.rule("parents-exist", "addLeafMemorized: the insertion is reachable only after the loop over {Left,Right}ParentHash completed, and every iteration crosses the found-edge of GetVertex for its element", 3)
@@ -1144,7 +1160,7 @@ func runC14(w *World, r *Report) {
 			for _, wc := range callsTo(cl, dagM("AncestorsWalker")) {
 				data := resultAt(wc, 0)
 				recvs, _ := exhaustedEdges(cl, data)
-				isSend := func(in ssa.Instruction) bool {
+				isSendLocal := func(in ssa.Instruction, _ resolver) bool {
 					switch x := in.(type) {
 					case *ssa.Send:
 						return !sameVal(x.Chan, data)
@@ -1157,6 +1173,8 @@ func runC14(w *World, r *Report) {
 					}
 					return false
 				}
+				// a call to a helper every path of which performs the send counts as the send
+				isSend := passesDeep(cl, idRes, isSendLocal, 1)
 				for _, rv := range recvs {
 					r.check(everyItemPasses(cl, rv, isSend), "stream-complete", "StreamDAG/every-item-sent", lineOf(w, rv), "each walker item is sent (or skipped as already sent)", "a way back to the receive neither sends the vertex nor is the visited-set skip")
 				}
@@ -1233,25 +1251,53 @@ func runC14(w *World, r *Report) {
 	r.rule("genesis-from-root", "the genesis address stored by LoadDag is the issuer of a root vertex", 1)
 	okGen := false
 	for _, st := range storesToField(fn, "genesisPublicAddress") {
-		p := pathOf(st.Val)
-		if strings.HasSuffix(p, ".Transaction.IssuerAddress") {
-			base := strings.TrimSuffix(p, ".Transaction.IssuerAddress")
-			_ = base
-			// the vertex originates from ranging GetRoots()
-			if ld, ok := st.Val.(*ssa.UnOp); ok {
-				if fa, ok := ld.X.(*ssa.FieldAddr); ok {
-					if fa2, ok := fa.X.(*ssa.FieldAddr); ok {
-						for _, o := range origins(fa2.X) {
-							if c, ok := o.(*ssa.Call); ok && calleeName(c) == dagM("GetRoots") {
-								okGen = true
-							}
-						}
+		// the stored value is <vertex>.Transaction.IssuerAddress (possibly handed back by a helper) and the vertex
+		// originates from ranging GetRoots()
+		for _, o := range originsDeep(st.Val, deepDepth) {
+			ld, ok := o.(*ssa.UnOp)
+			if !ok || !strings.HasSuffix(pathOf(o), ".Transaction.IssuerAddress") {
+				continue
+			}
+			fa, ok := ld.X.(*ssa.FieldAddr)
+			if !ok {
+				continue
+			}
+			fa2, ok := fa.X.(*ssa.FieldAddr)
+			if !ok {
+				continue
+			}
+			for _, vo := range origins(fa2.X) {
+				for _, ro := range rootedDeep(fn, vo) {
+					if c, ok := ro.(*ssa.Call); ok && calleeName(c) == dagM("GetRoots") {
+						okGen = true
 					}
 				}
 			}
 		}
 	}
 	r.check(okGen, "genesis-from-root", "LoadDag/genesisPublicAddress", w.Pos(fn.Pos()), "genesis wallet := issuer of a vertex obtained from GetRoots()", "stored value has another origin")
+}
+
+// rootedDeep: the origins of o; when o is a parameter of a helper of fn's package, the origins of the
+// arguments passed for it at its call sites inside fn.
+func rootedDeep(fn *ssa.Function, o ssa.Value) []ssa.Value {
+	prm, ok := o.(*ssa.Parameter)
+	if !ok || prm.Parent() == fn {
+		return []ssa.Value{o}
+	}
+	h := prm.Parent()
+	var out []ssa.Value
+	for _, c := range helperCalls(fn) {
+		if c.Common().StaticCallee() != h {
+			continue
+		}
+		for k, p := range h.Params {
+			if p == prm && k < len(c.Common().Args) {
+				out = append(out, origins(c.Common().Args[k])...)
+			}
+		}
+	}
+	return out
 }
 
 func blockCancelDesc(w *World, b *ssa.BasicBlock) string {
